@@ -544,7 +544,7 @@ func runC05(c *Ctx) {
 		c.DistinctCase(fmt.Sprint("tail-src", i))
 	}
 	bufferScenarios(c, 3, 300)
-	c.Rep.Rule = "trees of Subscribe/Clone to depth 3 built through the public API on a real controller fed by the fake API server's watch (virtual time), subscriptions created at barriers and racing with the stream, <= EventBufsiz/4 events in flight, 4 levels of logger-driven perturbation. Oracles: every subscriber's sequence is a suffix of the reference subscriber's (exact start index when created at a barrier), no event before Ready, Get after an event never returns an older version; sequences of barrier-created subscribers vs the extracted model (skipn). Plus: 130 events with never-reading siblings holding full buffers (the consumers that keep up receive all 130); and periodic relists that find 399 differences while the restarted watch at once delivers newer versions of the last of those objects (no subscriber sees an object go back to an older version); and a burst followed at once by the root's Close() (subscribers at depth 0, 1 and 2 created together end with the same sequence: publishers drain their backlog before shutting down; on a hand-driven source every subscriber receives exactly the 60 events handed over before the stop). Non-trivial = scenario with >= 3 subscribers checked."
+	c.Rep.Rule = "trees of Subscribe/Clone to depth 3 built through the public API on a real controller fed by the fake API server's watch (virtual time), subscriptions created at barriers and racing with the stream, <= EventBufsiz/4 events in flight, 4 levels of logger-driven perturbation. Oracles: every subscriber's sequence is a suffix of the reference subscriber's (exact start index when created at a barrier), no event before Ready, Get after an event never returns an older version; sequences of barrier-created subscribers vs the extracted model (skipn). Plus: 130 events with never-reading siblings holding full buffers (the consumers that keep up receive all 130); and periodic relists that find 399 differences while the restarted watch at once delivers newer versions of the last of those objects (no subscriber sees an object go back to an older version); and a burst followed at once by the root's Close() (subscribers at depth 0, 1 and 2 created together end with the same sequence: publishers drain their backlog before shutting down; on a hand-driven source every subscriber receives exactly the 60 events handed over before the stop). Non-trivial = scenario with >= 3 subscribers checked. Plus a filtered subscription with a slow filter closed while 20 events published before the close are buffered in front of it: all 20 are handed on before its Events() closes."
 	c.Rep.Stats["runs"] = runs
 }
 
